@@ -5,23 +5,24 @@ PLAN = dict(
     level="exploration",
     rule="case = generated context-forest program (<= 12 heap task_group_contexts, depth <= 4, bound/isolated kinds, built by running code: a task under context P "
          "creates C and runs parallel_for(simple, grain 1) over 1-3 stealable sub-builders under it; 1-3 builder tasks of one outer task_group; 1-2 extra threads "
-         "with cancel_group_execution on generated targets incl. duplicates, in-body cancels of enclosing contexts, leaf contexts deleted by the builder or by "
+         "with cancel_group_execution on generated targets incl. duplicates (after or racing with the target's first use), contexts cancelled before their first use, "
+         "in-body cancels of enclosing contexts, leaf contexts deleted by the builder or by "
          "another thread; max_allowed_parallelism 2-4) x generated schedule (SC or TSO); non-trivial = the bind interval of at least one context overlapped, in logical "
          "time, a winning cancel_group_execution call on one of its strict ancestors along the bound chain; distinct = hash of program text + schedule descriptor",
     assumptions=SC_TSO + [
-        "a cancel target is only cancelled once its own first use (binding) has completed; cancel racing with the target's own first bind is outside the generated domain",
         "a context is destroyed only after its loop returned, when it has no children and is nobody's cancel target",
-        "known findings C04 bind/propagate races (shapes DEEP, ROOT, FALLBACK, HINT, see harness/c04_cancel.cpp judge()) are excluded from the default verdict and counted "
-        "as n_excluded; the witness leg (`drive --witness`, cfg witness=1, kinds BIND-RACE-*) reports them",
+        "cancel targets of the extra threads are cancelled either once bound or as soon as the object exists (racing with their own first use); a context may also be "
+        "cancelled by its creator before its first use (must stay cancelled, its loop body must not run); these shapes and the bind-versus-propagation windows were "
+        "genuine defects, repaired in /repo (ea1ac1e, 35a0cf8), and are part of the default domain",
         "the outer task_group's own context is reset by wait(); it is only checked for that reset"],
     floor=dict(quick=500, thorough=5000),
     tiers=dict(
         quick=[det("rel", H, "cs-rel", 16, 200, 4, tso=True, time_cap=20),
                det("dbg", H, "cs-dbg", 16, 80, 4, tso=True, time_cap=12),
-               det("witness-bind-race", H, "cs-rel", 4, 300, 4, tso=True, time_cap=25, args=["--witness"])],
+               det("directed-cancel-before-first-use", H, "cs-rel", 1, 6, 3, tso=True, time_cap=10, args=["--witness2"])],
         thorough=[det("rel", H, "cs-rel", 16, 2600, 5, tso=True, time_cap=280),
                   det("dbg", H, "cs-dbg", 16, 700, 5, tso=True, time_cap=130),
-                  det("witness-bind-race", H, "cs-rel", 4, 300, 4, tso=True, time_cap=25, args=["--witness"]),
+                  det("directed-cancel-before-first-use", H, "cs-rel", 1, 6, 3, tso=True, time_cap=10, args=["--witness2"]),
                   det("enum-conflict", H, "cs-rel", 16, 30, 2, tso=True, time_cap=60, enum="conflict", enum_cap=120),
                   det("enum-sbload", H, "cs-rel", 16, 30, 2, tso=True, time_cap=60, enum="sbload", enum_cap=120)],
     ),
@@ -33,6 +34,6 @@ TEXT = dict(
                "generated targets; after every builder, canceller and destroyer returned and the runtime is quiescent, each live context must be cancelled exactly when "
                "itself or an ancestor along the recorded bound chain was a cancel target (isolated contexts and unrelated subtrees stay clean), at most one call per "
                "target may return true and exactly one if no ancestor was cancelled, and the waited outer group must be reset. Sampling of programs and schedules, "
-               "not exhaustive; four bind-versus-propagation race shapes that the unchanged library loses are counted as excluded and reproduced with --witness.",
+               "not exhaustive. The bind-versus-propagation windows (cancel of parent / grand-ancestor / parent-less parent overlapping a bind, store-buffered children hint) are part of the default domain; a miss there is reported under a BIND-RACE-* kind.",
     level_note=DET_NOTE,
 )
